@@ -1,4 +1,5 @@
 import MirProofs.Lemmas.Effects
+import MirProofs.Lemmas.EffectsInit
 import MirGen.Effects
 import MirGen.EffectsValid
 
@@ -14,6 +15,8 @@ but `MirModel/Effects.lean`: names, aliasing, in-place writes, module state, cal
 * `history_invariant`   — if every function of a call sequence is safe then every call of the sequence —
                           whatever was called before it, in whatever order — starts in a world that agrees
                           with the initial one on all caller-owned objects and on the global state.
+* `empty_init_sound`    — a function `initOK` accepts reads completely written `np.empty` buffers only, on
+                          every path of the path semantics `PathI` (any branches, any iteration counts).
 * `gen_*`               — G-obligations on the program regenerated from the current source.
 
 The defects this slice found on the snapshot (`melody.freq_to_voicing` & callers writing `est_voicing` /
@@ -210,14 +213,45 @@ theorem gen_no_global_writes : ∀ f, f ∈ publicIds → noGlobalWritesAt table
 
 /-! ## `np.empty` buffers -/
 
-/-- The statement `initOK` is meant to guarantee: on every control-flow path of a function the analysis
-    accepts, every read (alias, argument, return) sees a variable that is not an `np.empty` buffer with an
-    unwritten cell — in the path semantics `Mir.Effects.PathI`, where a buffer has one cell per iteration
-    of the loop that indexes it.  **Unproved** (listed in UNPROVED of harness/props/c15.py): kept as a
-    proposition, not a theorem; `initOK` is validated at run time by poisoning `np.empty`. -/
+/-- What `initOK` guarantees: on every control-flow path of a function the analysis accepts, every read
+    (alias, argument, return) sees a variable that is not an `np.empty` buffer with an unwritten cell — in
+    the path semantics `Mir.Effects.PathI`, where a buffer has one cell per iteration of the loop that
+    indexes it: after `allocEmpty x` the status of `x` is `empty`; only `fillAll x`, or a loop that indexes
+    `x` and runs `fillSome x` in *every* iteration on *every* branch, bring it back to `init`; a read of `x`
+    at any other status makes the path's `ok` false. -/
 def empty_init_sound_statement : Prop :=
   ∀ (fd : FunDef), initOKFun fd = true →
     ∀ e' ok stop, PathI [] (.stmt fd.body) [] e' ok stop → ok = true
+
+/-- **empty_init_sound.**  `initOKFun fd = true` ⇒ every path through the body of `fd` — any branch of
+    every `if`, any number of iterations of every loop, ending by falling through, `return` or `raise` —
+    reads completely written buffers only.  (Proof: `Mir.Effects.path_sim`, a simulation between `PathI`
+    and `initAn` by induction over paths; the abstract status over-approximates the path's status pointwise,
+    the abstract loop context contains the path's.)
+
+    The statement is the one this module always carried; what had to change for it to be *true* is the
+    analysis: `initAn` now refuses an `allocEmpty x` inside a loop that indexes `x`
+    (`realloc_in_indexing_loop` below is the counterexample to the former version). -/
+theorem empty_init_sound : empty_init_sound_statement :=
+  fun _ hf _ _ _ h => initOKFun_sound hf h
+
+/-- spelled out for the `return`: whenever a path reaches the final `return srcs` of an accepted function,
+    every returned variable is completely written -/
+theorem empty_init_sound_return {ps : List Var} {c : Stmt} {srcs : List Var}
+    (hf : initOKFun ⟨ps, .seq c (.ret srcs)⟩ = true) {e : IEnv} {ok : Bool}
+    (h : PathI [] (.stmt c) [] e ok false) : ∀ v, v ∈ srcs → IEnv.get e v = .init := by
+  have := empty_init_sound _ hf _ _ _ (PathI.seq_norm h PathI.ret)
+  simp only [Bool.and_eq_true, readsOK, List.all_eq_true, beq_iff_eq] at this
+  exact this.2
+
+/-- per-program form used with the G-obligation `gen_init_ok` -/
+theorem empty_init_sound_prog {P : Prog} {f : FunId} {fd : FunDef} (hf : P.funs[f]? = some fd)
+    (h : initOK P f = true) {e' : IEnv} {ok st : Bool} (hp : PathI [] (.stmt fd.body) [] e' ok st) :
+    ok = true := by
+  simp only [initOK, hf] at h
+  exact empty_init_sound fd h _ _ _ hp
+
+/-! ### non-vacuity -/
 
 /-- non-vacuity of the analysis itself: a buffer filled in every iteration is accepted, one that is not
     written on the `else` branch is refused (the shape of `bss_eval_images_framewise`) -/
@@ -227,6 +261,77 @@ example : initOKFun ⟨[], .seq (.allocEmpty 0) (.seq (.loop (.ite (.fillSome 0)
 example : initOKFun ⟨[], .seq (.allocEmpty 0) (.seq (.loop (.loop (.fillSome 0))) (.ret [0]))⟩ = true := by decide
 example : initOKFun ⟨[], .seq (.allocEmpty 0) (.seq (.loop (.seq (.loop (.fillSome 0)) (.assign 1 (.fresh [0]))))
     (.ret [0]))⟩ = false := by decide
+
+/-- `sdr, isr, sir, sar, perm = np.empty(…)` -/
+def alloc5 (rest : Stmt) : Stmt :=
+  .seq (.allocEmpty 0) (.seq (.allocEmpty 1) (.seq (.allocEmpty 2) (.seq (.allocEmpty 3) (.seq (.allocEmpty 4) rest))))
+/-- `sdr[:, k], isr[:, k], sir[:, k], sar[:, k], perm[:, k] = …` -/
+def fill5 : Stmt := .seq (.fillSome 0) (.seq (.fillSome 1) (.seq (.fillSome 2) (.seq (.fillSome 3) (.fillSome 4))))
+/-- the silent-window branch before `fix:` b910d54: `isr[:, k]` (buffer 1) is not written -/
+def fill4 : Stmt := .seq (.fillSome 0) (.seq (.fillSome 2) (.seq (.fillSome 3) (.fillSome 4)))
+/-- shape of `bss_eval_images_framewise` as repaired: five buffers, all filled on both branches of the window loop -/
+def framewiseFixed : FunDef := ⟨[], alloc5 (.seq (.loop (.ite fill5 fill5)) (.ret [0, 1, 2, 3, 4]))⟩
+/-- … and before the repair: four filled on both branches, one on one branch only -/
+def framewiseBefore : FunDef := ⟨[], alloc5 (.seq (.loop (.ite fill5 fill4)) (.ret [0, 1, 2, 3, 4]))⟩
+
+/-- the premise of `empty_init_sound` holds for the repaired shape … -/
+example : initOKFun framewiseFixed = true := by decide
+/-- … its conclusion is about real paths: one iteration through the silent branch, then the `return` … -/
+example : ∃ e' ok, PathI [] (.stmt framewiseFixed.body) [] e' ok true :=
+  ⟨_, _, PathI.seq_norm PathI.allocEmpty (PathI.seq_norm PathI.allocEmpty (PathI.seq_norm PathI.allocEmpty
+    (PathI.seq_norm PathI.allocEmpty (PathI.seq_norm PathI.allocEmpty
+      (PathI.seq_norm
+        (PathI.loop (PathI.iter_step
+          (PathI.ite_r (PathI.seq_norm PathI.fillSome (PathI.seq_norm PathI.fillSome
+            (PathI.seq_norm PathI.fillSome (PathI.seq_norm PathI.fillSome PathI.fillSome)))))
+          PathI.iter_done))
+        PathI.ret)))))⟩
+/-- … and all five returned buffers are completely written there. -/
+example {e : IEnv} {ok : Bool}
+    (h : PathI [] (.stmt (alloc5 (.loop (.ite fill5 fill5)))) [] e ok false) :
+    ∀ v, v ∈ [0, 1, 2, 3, 4] → IEnv.get e v = .init := by
+  have hf : initOKFun ⟨[], .seq (alloc5 (.loop (.ite fill5 fill5))) (.ret [0, 1, 2, 3, 4])⟩ = true := by decide
+  exact empty_init_sound_return hf h
+
+/-- the missing write of the pre-fix shape is detected by the analysis … -/
+example : initOKFun framewiseBefore = false := by decide
+/-- … and it is a real one: the path with one iteration through the silent branch returns `isr` with a
+    garbage cell (`ok = false`), so the conclusion of `empty_init_sound` fails for that function. -/
+theorem framewiseBefore_reads_garbage :
+    ¬ ∀ e' ok stop, PathI [] (.stmt framewiseBefore.body) [] e' ok stop → ok = true := by
+  intro hall
+  have h := hall _ _ _
+    (PathI.seq_norm PathI.allocEmpty (PathI.seq_norm PathI.allocEmpty (PathI.seq_norm PathI.allocEmpty
+      (PathI.seq_norm PathI.allocEmpty (PathI.seq_norm PathI.allocEmpty
+        (PathI.seq_norm
+          (PathI.loop (PathI.iter_step
+            (PathI.ite_r (PathI.seq_norm PathI.fillSome
+              (PathI.seq_norm PathI.fillSome (PathI.seq_norm PathI.fillSome PathI.fillSome))))
+            PathI.iter_done))
+          PathI.ret))))))
+  revert h
+  decide
+
+/-- `if c: x = np.empty(n)` … `for k: x = np.empty(n); x[k] = …` … `return x`: the buffer is re-allocated
+    inside the loop that indexes it, so after the loop only the last cell is written.  `initAn` refuses it
+    (rule `allocEmpty x` with `x ∈ ctx`); before that rule existed it was accepted (on the abstract side `x`
+    is `empty` at loop entry, indexed, `cell` at the end of every iteration, hence `init` after the loop),
+    which made `empty_init_sound_statement` false: -/
+def reallocInIndexingLoop : FunDef :=
+  ⟨[], .seq (.ite (.allocEmpty 0) .skip) (.seq (.loop (.seq (.allocEmpty 0) (.fillSome 0))) (.ret [0]))⟩
+
+example : initOKFun reallocInIndexingLoop = false := by decide
+
+theorem realloc_in_indexing_loop :
+    ¬ ∀ e' ok stop, PathI [] (.stmt reallocInIndexingLoop.body) [] e' ok stop → ok = true := by
+  intro hall
+  have h := hall _ _ _
+    (PathI.seq_norm (PathI.ite_r PathI.skip)
+      (PathI.seq_norm
+        (PathI.loop (PathI.iter_step (PathI.seq_norm PathI.allocEmpty PathI.fillSome) PathI.iter_done))
+        PathI.ret))
+  revert h
+  decide
 
 open MirGen.Effects in
 /-- **Every** public function fills each `np.empty` buffer before reading it (since `fix:` b910d54
